@@ -18,7 +18,8 @@ def draw_system(rng, seed: int, prop: str, *, families=("single",) * 6 + ("cross
         name = rng.choice(list(names))
         fam = models.SPECS[name].family
     spec = models.SPECS[name]
-    lazy = spec.dask_ok and rng.random() < lazy_prob
+    # SparsePCA's dask route is broken in several ways (known findings under C12); it is exercised there
+    lazy = spec.dask_ok and spec.name != "SparsePCA" and rng.random() < lazy_prob
     cfg: dict = {"property": prop, "seed": seed, "spec": name, "lazy": lazy}
     lay = dict(max_features=12, complex_=spec.complex_input, allow_nan=not lazy,
                allow_mi=not lazy or rng.random() < 0.3)
